@@ -30,7 +30,11 @@ Definition step (st : sys) (e : event) : sys :=
   | EWakeups => process_wakeups s b
   | ETimeouts now => (s, process_timeouts now b)
   | EConnect c => (connect s c, b)
-  | EDisconnect c => (del_conn s c, if is_blocked b c then with_dead b (c :: b_dead b) else b)
+  | EDisconnect c =>
+      (* a blocked connection is not read: nothing is noticed; otherwise the next read finds the end of
+         the stream and cleanup_connections unregisters the connection from every database *)
+      (del_conn s c, if is_blocked b c then with_dead b (c :: b_dead b)
+                     else with_reg b (unregister_all (b_reg b) c))
   end.
 Definition run (st : sys) (evs : list event) : sys := fold_left step evs st.
 
